@@ -189,6 +189,7 @@ func allChecksRaw() []*Check {
 				{Name: "C12.rows.1x3", Pkg: "gtree", Entry: "VerifC12Rows", N: 13, FSModel: true, RealParse: true, Expect: []string{"C12.returned", "C12.empty.nil", "C12.accepted.nonempty"}},
 				{Name: "C12.rows.2x1", Pkg: "gtree", Entry: "VerifC12Rows", N: 21, FSModel: true, RealParse: true, Expect: []string{"C12.returned", "C12.empty.nil"}},
 				{Name: "C12.rows.1x2.allbytes", Pkg: "gtree", Entry: "VerifC12Rows", N: 112, FSModel: true, RealParse: true, Expect: []string{"C12.returned", "C12.empty.nil"}},
+				{Name: "C12.longrows", Pkg: "gtree", Entry: "VerifC12Rows", N: 1000, FSModel: true, RealParse: true, Expect: []string{"C12.returned"}},
 				{Name: "C12.long", Pkg: "gtree", Entry: "VerifC12Long", N: 0, FSModel: true, RealParse: true, RealScan: true, Expect: []string{"C12.long.returned", "C12.long.reported", "C12.long.fits.nil", "C12.long.fits.rendered", "C12.long.noleak"}},
 			},
 			Thorough: []Job{
@@ -198,7 +199,7 @@ func allChecksRaw() []*Check {
 				{Name: "C12.long", Pkg: "gtree", Entry: "VerifC12Long", N: 0, FSModel: true, RealParse: true, RealScan: true, Expect: []string{"C12.long.returned", "C12.long.reported", "C12.long.fits.nil", "C12.long.fits.rendered", "C12.long.noleak"}},
 				{Name: "C12.rows.1x2.allbytes", Pkg: "gtree", Entry: "VerifC12Rows", N: 112, FSModel: true, RealParse: true, Expect: []string{"C12.returned", "C12.empty.nil"}},
 			},
-			Bounds: "byte level, real parser: documents of 1 row of 0..3 (quick) / 0..4 (thorough) arbitrary ASCII bytes, 2 rows of 0..1 (quick) / 0..2 (thorough) bytes, 1 row of 0..2 bytes over all 256 values (no \\n: the scanner never delivers one), through 8 sequential entry points (text both routes, JSON, YAML, dry-run, walk, mkdir and verify on the file-system model) and 2 massive-mode ones (text, walk; FIFO policy); plus, at tree level, the empty document and 1..3 blank rows on 11 entry points (2 of them massive). A panic or an exceeded step budget (3e6 SSA instructions) on any feasible path is a violation; this is also built into every harness of every other property. Outside: longer rows / more rows at byte level (the DESIGN's 3x5 bound is out of reach: 2 rows x 3 bytes did not finish in 30 min), over-long lines other than the boundary case (real bufio.Scanner: a root row of 65535 bytes plus newline is rendered completely, one byte more is an error, on 3 simple routes and massive text), other massive-mode documents (C10/C11).",
+			Bounds: "byte level, real parser: documents of 1 row of 0..3 (quick) / 0..4 (thorough) arbitrary ASCII bytes, 2 rows of 0..1 (quick) / 0..2 (thorough) bytes, 1 row of 0..2 bytes over all 256 values (no \\n: the scanner never delivers one), through 8 sequential entry points (text both routes, JSON, YAML, dry-run, walk, mkdir and verify on the file-system model) and 2 massive-mode ones (text, walk; FIFO policy); plus, at tree level, the empty document and 1..3 blank rows on 11 entry points (2 of them massive). A panic or an exceeded step budget (3e6 SSA instructions) on any feasible path is a violation; this is also built into every harness of every other property. Long rows: a notation prefix (none, root bullet, indented bullets, heading, tab) + 30 or 100 units of one kind (ASCII, 2-byte, 3-byte characters, invalid bytes, a mixture, blanks) + one arbitrary byte, alone or after a root and child, on the same 10 entry points (byte length and rune count far apart, lengths beyond small fixed limits). Outside: longer rows / more rows with every byte arbitrary (the DESIGN's 3x5 bound is out of reach: 2 rows x 3 bytes did not finish in 30 min), over-long lines other than the boundary case (real bufio.Scanner: a root row of 65535 bytes plus newline is rendered completely, one byte more is an error, on 3 simple routes and massive text), other massive-mode documents (C10/C11).",
 			Assume: append([]string{fsModel, "real std strings/path/filepath/io/fs code executed on symbolic bytes (leaf intrinsics: bytealg.IndexByteString, CountString, MakeNoZero)"}, commonAssume...),
 		},
 		{
